@@ -2,6 +2,7 @@ package engines
 
 import (
 	"os"
+	"strings"
 
 	"stfsmc/ops"
 )
@@ -38,6 +39,15 @@ func AlphabetA(paths []string, contents []string, mkdirAll []string, removeAll [
 				a = append(a, ops.Op{K: "rename", P: p, Q: q})
 			}
 		}
+	}
+	// renaming an entry onto itself, and the same entry spelled without the leading slash
+	for i, p := range paths {
+		if i < 2 {
+			a = append(a, ops.Op{K: "rename", P: p, Q: p})
+		}
+	}
+	if len(paths) > 2 {
+		a = append(a, ops.Op{K: "rename", P: strings.TrimPrefix(paths[0], "/"), Q: paths[2]}, ops.Op{K: "mkdir", P: strings.TrimPrefix(paths[1], "/")})
 	}
 	if attrs {
 		for _, p := range paths {
@@ -96,7 +106,7 @@ func FlagAlphabet(p string) []ops.Op {
 // AlphabetB is the archive-level alphabet (Operations API): batched Archive, content/metadata Update, Delete, Move.
 func AlphabetB(full bool) []ops.Op {
 	a := []ops.Op{}
-	batches := []string{"d", "e", "g", "d,f", "e,h,k", "d,f,n"}
+	batches := []string{"d", "e", "g", "d,f", "e,h,k", "d,f,n", "e,g"}
 	if full {
 		batches = append(batches, "f", "h", "k", "g,e", "d,n,g", "k,h,e")
 	}
@@ -222,7 +232,11 @@ func WAlphabet(names []string) []ops.Op {
 			ops.Op{K: "rename", P: "/./" + w, Q: "/" + w + "/d/sub"},
 			ops.Op{K: "rename", P: "/" + w + "/./d", Q: "/" + w + "/../" + w + "/e2"},
 			ops.Op{K: "removeall", P: "/zz/../" + w + "/d"},
-			ops.Op{K: "removeall", P: "//" + w})
+			ops.Op{K: "removeall", P: "//" + w},
+			// the directory spelled relative to the root
+			ops.Op{K: "rename", P: w, Q: "/" + w + "/d/sub"},
+			ops.Op{K: "rename", P: "/" + w, Q: w + "/sub"},
+			ops.Op{K: "rename", P: "/" + w, Q: "/" + w})
 	}
 	return a
 }
@@ -252,7 +266,8 @@ func HandleAlphabet(l int, appendMode bool) []ops.Op {
 			a = append(a, ops.Op{K: "h.writeat", C: "Z", H: off})
 		}
 	}
-	for _, n := range uniqInts([]int{-1, 0, 2, l + 4}) {
+	// l+40000: growing by more than 32 KiB and not by a multiple of it
+	for _, n := range uniqInts([]int{-1, 0, 2, l + 4, l + 40000}) {
 		a = append(a, ops.Op{K: "h.truncate", N: n})
 	}
 	a = append(a, ops.Op{K: "h.sync"}, ops.Op{K: "h.stat"})
@@ -480,6 +495,18 @@ func BigMoveAlphabet() []ops.Op {
 		{K: "rename", P: "/d", Q: "/e"}, {K: "removeall", P: "/d"}, {K: "removeall", P: "/e"}, {K: "mkdir", P: "/n"}, {K: "put", P: "/m", C: "y"},
 		{K: "remove", P: "/d/b"}, {K: "rename", P: "/d/a", Q: "/d/z"}, {K: "chmod", P: "/d/a", N: 0o600}, {K: "chmod", P: "/d", N: 0o700}, {K: "put", P: "/e/b", C: "T1100:2"},
 		{K: "rename", P: "/e", Q: "/d"}, {K: "rebuild"}, {K: "reopen"},
+	}
+}
+
+// StaleHandleSetup/StaleHandleAlphabet: a write handle that is still open while its path is renamed away, removed,
+// or taken by another entry (a directory), and is flushed or closed afterwards.
+func StaleHandleSetup() []ops.Op {
+	return []ops.Op{{K: "mkdir", P: "/a"}, {K: "hopen", P: "/a/f", N: os.O_RDWR | os.O_CREATE | os.O_TRUNC, H: 1}, {K: "hwrite", H: 1, C: "data"}}
+}
+func StaleHandleAlphabet() []ops.Op {
+	return []ops.Op{
+		{K: "rename", P: "/a/f", Q: "/g"}, {K: "remove", P: "/a/f"}, {K: "mkdirall", P: "/a/f/sub"}, {K: "mkdir", P: "/a/f"}, {K: "put", P: "/a/f", C: "other"},
+		{K: "rename", P: "/a", Q: "/b"}, {K: "removeall", P: "/a"}, {K: "hwrite", H: 1, C: "more"}, {K: "hsync", H: 1}, {K: "hclose", H: 1},
 	}
 }
 
